@@ -77,6 +77,9 @@ fn gen(r: &mut Rng, prop: &str) -> (SCase, Vec<u8>) {
             match prop {
                 "C16" => {
                     cands.push(Mode::Before); cands.push(Mode::After);
+                    // a NEUTRAL alternate: the probe followed by the replaced instruction itself (non-control instructions only)
+                    if matches!(op, Op::Const(_) | Op::LocalGet(_) | Op::LocalSet(_) | Op::LocalTee(_) | Op::Drop | Op::Other(T_NOP) | Op::Other(T_ADD) | Op::Other(T_SUB) | Op::Other(T_EQZ) | Op::Other(T_GGET0) | Op::Other(T_GSET0))
+                        && !c.plan.iter().any(|(i, m, _)| *i == idx && *m == Mode::Alternate) { cands.push(Mode::Alternate); }
                     if blockish { cands.push(Mode::BlockEntry); cands.push(Mode::BlockExit); cands.push(Mode::SemanticAfter); }
                     if branchy { cands.push(Mode::SemanticAfter); }
                 }
@@ -91,7 +94,9 @@ fn gen(r: &mut Rng, prop: &str) -> (SCase, Vec<u8>) {
             if cands.is_empty() { continue; }
             let m = *r.pick(&cands);
             pid += 1;
-            c.plan.push((idx, m, vec![Op::Const(pid), Op::Other(T_LOG)]));
+            let mut ops = vec![Op::Const(pid), Op::Other(T_LOG)];
+            if m == Mode::Alternate { ops.push(c.body[idx].clone()); }
+            c.plan.push((idx, m, ops));
         }
         if (prop == "C19" || prop == "C18") && r.chance(1, 2) {
             // other special probes on the same constructs must not disturb entry / exit probes: semantic-after on
